@@ -16,6 +16,7 @@ class ClassDecl:
         self.external = external
         self.truthy = truthy          # None: always true
         self.src_path = src_path      # qualified path of a class nested in a function
+        self.forward = {}             # instance attribute -> (field, method): bound methods installed by _make_methods
 
 
 class GhostDecl:
